@@ -24,7 +24,7 @@ type Scenario struct {
 	J    int  // Byzantine leader's PRECOMMIT justification: 0 the certificate it just aggregated; 1 a REPLAYED certificate: the first certificate of the first certified block (other round, possibly other results) under the current message header
 	S    int  // 2: like 1, and its ELECTION_VOTE reaches the elected leader FIRST, reporting the highest lock certificate seen on the network with a root-chain build height nobody accepts (World.lockVeto); 1: the Byzantine node additionally spams every honest node, after every timer generation, with an absurd pacemaker claim and a far-future ELECTION_VOTE (World.Spam)
 	U    int  // 1: the Byzantine node is NOT this round's elected leader but acts as one (mode L) with a REPLAYED election certificate: the +2/3 ELECTION_VOTE certificate of an earlier round of this root height in which it was elected; its PROPOSE follows the elected leader's
-	L    int  // Byzantine leader: 0 honest; 1,2 re-proposes known certificate 0/1 with that certificate as HighQc; 3 proposes a fresh block with no justification; 4 equivocates (X to one half of the honest nodes, X' to the other); 5,6 like 1,2 with the latest certificate; 7 equivocates on the certificate RESULTS only (same block, results R / R'); 8 proposes the first certified block again with OTHER results and no justification
+	L    int  // Byzantine leader: 0 honest; 1,2 re-proposes known certificate 0/1 with that certificate as HighQc; 3 proposes a fresh block with no justification; 4 equivocates (X to one half of the honest nodes, X' to the other); 5,6 like 1,2 with the latest certificate; 7 equivocates on the certificate RESULTS only (same block, results R / R'); 8 proposes the first certified block again with OTHER results and no justification; 9 proposes one fresh block to everybody but the first live honest node's copy carries another (unsigned) root-chain build height
 }
 
 func (s Scenario) String() string {
@@ -383,6 +383,11 @@ func (w *World) puppet(rc *roundCtx, phaseFired lib.Phase) {
 			all[i] = true
 		}
 		switch {
+		case rc.sc.L == 9:
+			// one fresh block for everybody, but the copy of the first live honest node carries another (unsigned) root-chain build height
+			bx, rx := MakeBlock(byz, rc.rh, rc.round, 9)
+			h, _ := new(lib.Block).BytesToBlockHash(bx)
+			rc.tracks = []*track{{block: bx, results: rx, bh: h, rh: rx.Hash(), rcBuild: rc.rh, to: all}}
 		case rc.sc.L == 3:
 			// a fresh block with no justification at all, whatever locks the replicas hold
 			bx, rx := MakeBlock(byz, rc.rh, rc.round, 3)
@@ -442,6 +447,28 @@ func (w *World) puppet(rc *roundCtx, phaseFired lib.Phase) {
 				Qc: &lib.QuorumCertificate{Header: rc.tmpl.Qc.Header, Results: t.results, ResultsHash: t.rh, Block: t.block, BlockHash: t.bh,
 					ProposerKey: rc.tmpl.Qc.ProposerKey, Signature: rc.tmpl.Qc.Signature},
 				HighQc: t.highQc, RcBuildHeight: t.rcBuild}
+			if rc.sc.L == 9 {
+				victim := -1
+				for i := range w.Nodes {
+					if w.Honest(i) && w.Live(i) {
+						victim = i
+						break
+					}
+				}
+				if err := m.Sign(key); err != nil {
+					continue
+				}
+				bad := clone(m)
+				bad.RcBuildHeight = t.rcBuild + 1 // not covered by the signature
+				for i := range w.Nodes {
+					if i == victim {
+						w.enqueue(byz, i, bad, true)
+					} else {
+						w.enqueue(byz, i, m, true)
+					}
+				}
+				continue
+			}
 			sendAll(m)
 		}
 	case lib.Phase_PRECOMMIT, lib.Phase_COMMIT:
